@@ -460,6 +460,19 @@ func Sweeps(thorough bool, f func(name string, m ref.Msg, fits bool)) {
 			f(fmt.Sprintf("chain.size=%d@%d", n, pos), ref.Msg{H: BaseHdr, P: ps}, true)
 		}
 	}
+	// proposals with and without SPI in one SA payload, in every order (ESP with its SPI next to IKE without one)
+	for _, sizes := range [][]int{{4, 0}, {0, 4}, {8, 0, 4}, {4, 0, 0}, {0, 0, 4}, {255, 0}, {1, 0, 1}} {
+		var props []ref.Proposal
+		for i, sz := range sizes {
+			pr := ref.Proposal{Num: uint8(i + 1), Proto: 1, Tr: []ref.Transform{tv(1, 12, 14, 128), tr(2, 5), tr(3, 12), tr(4, 14)}}
+			if sz > 0 {
+				pr.Proto, pr.SPI = 3, Pat(sz, sz+i)
+				pr.Tr = []ref.Transform{tv(1, 12, 14, 256), tr(3, 2), tr(5, 0)}
+			}
+			props = append(props, pr)
+		}
+		f(fmt.Sprintf("SA.spi-mix=%v", sizes), one(ref.Payload{T: ref.PSA, SA: props}), true)
+	}
 	// a Delete payload that announces 4-octet SPIs and lists none (count = number of SPIs = 0), for every protocol id
 	for _, proto := range []uint8{0, 1, 2, 3, 255} {
 		d := ref.Payload{T: ref.PDelete, B: proto, SSize: 4, NSPI: 0}
